@@ -239,7 +239,8 @@ def wrapped(base: str):
 MAIN_COMPONENTS = ("bank_code", "branch_code", "account_code", "national_checksum_digits")
 
 
-def small_field_bodies(country_obj, base: str, limit: int = 20000, dictionary_only: bool = False):
+def small_field_bodies(country_obj, base: str, limit: int = 20000, dictionary_only: bool = False,
+                       include_national: bool = False):
     """For every minor component of the country (currency code, account type, account id, ... - not
     bank / branch / account / national check digits) whose value space has at most ``limit`` members:
     the base BBAN with that field set to EVERY value its character classes admit (with
@@ -250,7 +251,7 @@ def small_field_bodies(country_obj, base: str, limit: int = 20000, dictionary_on
     if not country_obj.classes:
         return
     for name in _reg.COMPONENTS:
-        if name in MAIN_COMPONENTS:
+        if name in MAIN_COMPONENTS and not (include_national and name == "national_checksum_digits"):
             continue
         sp = country_obj.span(name)
         if not sp:
